@@ -365,6 +365,48 @@ def clause_atoms(c, positive_only=False):
     return out
 
 
+def sccs(prog):
+    """rel name -> id of its strongly connected component in the dependency graph (head depends on body relations)"""
+    deps = {r.name: set() for r in prog.rels}
+    for c in prog.clauses:
+        for h in c.heads:
+            for (rn, ctx) in clause_atoms(c):
+                deps.setdefault(h.rel, set()).add(rn)
+                deps.setdefault(rn, set())
+    index, low, onst, st, comp = {}, {}, set(), [], {}
+    cnt = [0]
+    for root in sorted(deps):
+        if root in index:
+            continue
+        work = [(root, iter(sorted(deps[root])))]
+        index[root] = low[root] = cnt[0]; cnt[0] += 1
+        st.append(root); onst.add(root)
+        while work:
+            v, it = work[-1]
+            adv = False
+            for w in it:
+                if w not in index:
+                    index[w] = low[w] = cnt[0]; cnt[0] += 1
+                    st.append(w); onst.add(w)
+                    work.append((w, iter(sorted(deps[w]))))
+                    adv = True
+                    break
+                elif w in onst:
+                    low[v] = min(low[v], index[w])
+            if adv:
+                continue
+            work.pop()
+            if work:
+                low[work[-1][0]] = min(low[work[-1][0]], low[v])
+            if low[v] == index[v]:
+                while True:
+                    w = st.pop(); onst.discard(w)
+                    comp[w] = index[v]
+                    if w == v:
+                        break
+    return comp
+
+
 # ---------------------------------------------------------------------------------------
 # printer
 # ---------------------------------------------------------------------------------------
